@@ -220,7 +220,8 @@ func init() {
 			case 0:
 				patch = gen.Scalar(c.R, prof) // replaces the root
 			case 1:
-				patch = []any{gen.Scalar(c.R, prof)}
+				// a merge patch whose root is an array replaces the target, also when it looks like something else
+				patch = gen.Pick(c.R, []any{[]any{gen.Scalar(c.R, prof)}, []any{}, []any{map[string]any{"op": "add", "path": "/b", "value": 2.0}}, []any{"c", "d"}})
 			default:
 				patch = sprinkleNulls(c.R, gen.Mutate(c.R, prof, t), true)
 			}
